@@ -11,7 +11,9 @@ CONFIG = dict(
                 "gate until the second goroutine has finished, k drawn, or the drop is issued right before/after the flush) EVERY prefix of the durable-operation log "
                 "(create, put, delete, atomic batch write, drop records) is taken as a crash point: a fresh producer stack is "
                 "started over the replayed state, Initialize(surviving names, nil) is called and its answer is compared with "
-                "snapshots taken when each Flush returned. Crash points are enumerated completely per history; histories are sampled."),
+                "snapshots taken when each Flush returned. Crash points are enumerated completely per history; histories are sampled. "
+                "Unit TestC25RepeatedFlushIDs draws the flush ids from a tiny alphabet (nil, empty, 'A', 'B', the id of the previous flush, a unique id), "
+                "so that consecutive flushes often carry equal ids and the marks of two flushes cannot be told apart; the other units use unique ids."),
     level_note=NOTE_COMMON + (" Fault model: a crash loses exactly a suffix of the ordered durable operations; a batch Write is "
                               "atomic (LevelDB/Pebble batch semantics); torn single writes and reordering between databases are not modelled."),
     rule=("Oracle (DESIGN.md §4 C25, weak 'surviving databases' reading): a restart that returns an error (dirty / not synced / "
@@ -22,19 +24,26 @@ CONFIG = dict(
           "harness keeps the caller's own record of dropped names: a restart that reports Flush(N) without error must find every "
           "database whose Drop() had returned before Flush(N) was called (and that was not opened again) absent or empty; a Drop() "
           "issued by another goroutine while Flush(N) runs is concurrent with it (either order is accepted for N: the snapshot "
-          "decides) and binds from Flush(N+1) on. evaluations = crash points checked. "
+          "decides) and binds from Flush(N+1) on. "
+          "Flush ids are not assumed unique: at crash point p only the latest flush that had returned at p and the flush running at p are reportable, "
+          "the returned id must be the id of one of them and ALL databases must match the snapshot of ONE such flush with that id "
+          "(a flush called after p, or one superseded by a later completed flush, is never accepted on the strength of an equal id); "
+          "a database that held data at the reported flush may be missing only if the log has a drop record for it after that flush "
+          "(a dropped database need not reappear, any other must exist). evaluations = crash points checked. "
           "Non-trivial = crash point strictly inside a flush (after its first marker record, not after its last one) that "
           "marked >= 2 databases; distinct by hash of (variant, log, p)."),
     assumptions=[
         "a crash preserves a prefix of the globally ordered durable operations (single process, synchronous writes)",
         "a batch Write is atomic; batch writes without operations have no durable effect and are not crash points",
-        "callers use unique flush ids, do not use a store after dropping it, and with SyncedPool reopen a dropped name only after the next Flush "
+        "flush ids are opaque byte strings, possibly nil, empty or repeated (unit TestC25RepeatedFlushIDs); callers do not use a store after dropping it, and with SyncedPool reopen a dropped name only after the next Flush "
         "(after the next Flush that was called after Drop() returned, for a drop that overlapped a flush)",
         "while a SyncedPool.Flush runs, other goroutines only write to and Close+Drop pool databases (OpenDB/Flush/Close of the pool are serialised by the caller)",
-        "'every database' in the property is read as 'every surviving database' (DESIGN.md §4 C25)",
+        "'every database' in the property is read as 'every surviving database' (DESIGN.md §4 C25): a database dropped after the reported flush need not reappear; "
+        "a database that held data at the reported flush and has no drop record after it must exist",
     ],
     units=[
         dict(test="TestC25CrashPoints", quick=1300, thorough=200000, shards=16, env={"GOGC": "400"}),
         dict(test="TestC25DropRacesFlush", quick=400, thorough=60000, shards=16, env={"GOGC": "400"}),
+        dict(test="TestC25RepeatedFlushIDs", quick=800, thorough=100000, shards=16, env={"GOGC": "400"}),
     ],
 )
